@@ -23,7 +23,7 @@ def cases(tier):
     for ih in range(7):
         for rg in range(4):
             cs.append(dict(name=f"backward_h{ih}_rg{rg}", fn="bw", args={}, prefix=[ih, rg], weight=2))
-    for v in range(6):
+    for v in range(8):
         cs.append(dict(name=f"mtl_v{v}", fn="mtl", args={}, prefix=[v], weight=2))
     return cs
 
@@ -115,10 +115,11 @@ def case_bw(sp):
 
 def case_mtl(sp):
     set_kernels()
-    v = choice(6, "variant")
+    v = choice(8, "variant")
     # shared leaves p0, p1; a leaf r not requiring grad; task leaves q0, q1; optional leaf reached both through and around the features
-    around = v in (1, 4)        # head 1 also uses p1 directly  -> default sets overlap -> ValueError
-    two = v in (2, 3, 4, 5)     # two features
+    around = v in (1, 4)        # head 1 (the LAST task) also uses p1 directly  -> default sets overlap -> ValueError
+    around0 = v in (6, 7)       # head 0 (NOT the last task) also uses p1 directly
+    two = v in (2, 3, 4, 5, 7)  # two features
     deep = v in (3, 5)          # feature computed through an intermediate trunk node
     leaves = [("p0", (2,), True), ("p1", (), True), ("r", (2,), False), ("q0", (2,), True), ("q1", (), True)]
     ops = []
@@ -131,7 +132,7 @@ def case_mtl(sp):
     if two:
         ops.append(dict(name="trunk2", inputs=["p0"], outs=[("f2", ())], deps={(0, 0)}))
         feats.append("f2")
-    h0_in = ["f1", "q0"] + (["r"] if choice(2, "head0_uses_r") else [])
+    h0_in = ["f1", "q0"] + (["r"] if choice(2, "head0_uses_r") else []) + (["p1"] if around0 else [])
     h1_in = (["f2"] if two else ["f1"]) + ["q1"] + (["p1"] if around else []) + (["q0"] if choice(2, "q0_shared_by_heads") else [])
     ops.append(dict(name="mid0", inputs=h0_in, outs=[("m0", (2,))], deps={(0, i) for i in range(len(h0_in))}))
     ops.append(dict(name="head0", inputs=["m0"], outs=[("loss0", ())], deps={(0, 0)}))
